@@ -529,7 +529,7 @@ type c44Found struct {
 func TestVerifC44(t *testing.T) {
 	rep := vh.New(t, "C44")
 	defer rep.Finish()
-	rep.Rule = "case = initial state of 3 objects (segment, its index, a second segment), each primary in {present, missing, present-but-reads-fail} x replica in {same bytes, missing, error, stale same-length bytes, short prefix, longer stale bytes}, x a history of operations through the real dualS3Client (reads: full / ranged segment, index; writes: upload/delete segment/index, list, ensure-bucket, each also with the primary failing). Depth 1 uses every inclusive range [s,e] with 0<=s<=10, s<=e<=13 over the 8-byte object; deeper histories use 4 ranges. Every op is mirrored on a shadow copy of the primary alone. Plus the slow-replica section: a replica that answers a read only after 10 ms .. 31 s of virtual time (then with the same bytes, an error or not-found) x {full segment, ranged segment, index} read with a caller context without deadline. Non-trivial = some read hit a replica that is missing, answers with an error (outage or range it cannot satisfy) or holds different bytes, or a write/list ran with the primary failing."
+	rep.Rule = "case = initial state of 3 objects (segment, its index, a second segment), each primary in {present, missing, present-but-reads-fail} x replica in {same bytes, missing, error, stale same-length bytes, short prefix, longer stale bytes}, x a history of operations through the real dualS3Client (reads: full / ranged segment, index; writes: upload/delete segment/index, list, ensure-bucket, each also with the primary failing). Depth 1 uses every inclusive range [s,e] with 0<=s<=10, s<=e<=13 over the 8-byte object; deeper histories use 4 ranges. Every op is mirrored on a shadow copy of the primary alone. Plus the slow-replica section: a replica that answers a read only after 10 ms .. 31 s of virtual time (then with the same bytes, an error or not-found) x {full segment, ranged segment, index} read with a caller context without deadline. Plus the overlapping-reads section: every ordered pair of reads from {full segment, ranges [0,3] [2,5] [4,7], index, second segment full and [2,5]} run concurrently through ONE dual client (primary healthy and holding all objects; replica of each key touched in {same, missing, error, slow-same, slow-missing}); the first read is parked inside its 1st (replica) or 2nd (primary fallback) bucket call while the second runs until it returned or is durably blocked (testing/synctest), then the first is released or its caller context cancelled first; each read must return the primary's bytes for its own key and range (a cancelled caller may get a context error). Non-trivial = some read hit a replica that is missing, answers with an error (outage or range it cannot satisfy) or holds different bytes, or a write/list ran with the primary failing; in the overlapping-reads section: the first read really was parked inside a bucket call while the second ran and at least one of them had a replica that is not 'same'."
 	rep.Assumptions = []string{
 		"both buckets are in-package fakes with S3 range semantics (inclusive, end clamped, start past the end is an error) and lexicographic listing",
 		"'what the primary would return' = the primary bucket's content for (key, range); a transient primary read error does not make a correct answer from an identical replica wrong",
@@ -538,6 +538,11 @@ func TestVerifC44(t *testing.T) {
 	var sc c44SlowCase
 	if ok, err := vh.LoadReplay(&sc); ok && err == nil && sc.Slow {
 		c44RunSlow(t, rep, sc)
+		return
+	}
+	var cc c44ConcCase
+	if ok, err := vh.LoadReplay(&cc); ok && err == nil && cc.Conc {
+		c44RunConc(t, rep, cc)
 		return
 	}
 	var rc c44Case
@@ -559,6 +564,13 @@ func TestVerifC44(t *testing.T) {
 		rep.SetInfo("slow_replica_cases", len(slow))
 		for _, c := range slow {
 			c44RunSlow(t, rep, c)
+		}
+		conc := c44ConcCases()
+		rep.SetInfo("overlapping_read_cases", len(conc))
+		rep.SetInfo("overlapping_read_alphabet", fmt.Sprint(c44ConcReads()))
+		rep.SetInfo("overlapping_read_replica_states", c44ConcReplicaStates)
+		for _, c := range conc {
+			c44RunConc(t, rep, c)
 		}
 	}
 	depth := 2
